@@ -388,14 +388,19 @@ func genHTTPCase(r *kit.Rng, work string, id int) httpCase {
 			lines = append(lines, pad(r)+k+":"+r.PickStr([]string{"", " ", " ", "  ", "\t"})+v+pad(r))
 		}
 		if r.Chance(0.3) {
-			name := fmt.Sprintf("b%d_%d.bin", id, i)
+			// names come from a small pool: the same path carries different payloads in different
+			// files of one run (and may be referenced by several targets of one file)
+			name := fmt.Sprintf("body_%d.bin", r.Pick(6))
 			if r.Chance(0.2) {
-				name = fmt.Sprintf("b %d_%d .bin", id, i) // spaces inside the path
+				name = fmt.Sprintf("body %d .bin", r.Pick(3)) // spaces inside the path
 			}
 			p := filepath.Join(work, name)
 			content := []byte(fmt.Sprintf("body %d of file %d\n", i, id))
 			if r.Chance(0.2) {
 				content = []byte{}
+			}
+			if old, ok := hc.Files[p]; ok {
+				content = old
 			}
 			hc.Files[p] = content
 			t.BodyFile, t.Body, t.HasBody = p, content, true
@@ -605,6 +610,8 @@ func runHTTP(s *kit.Summary, hc *httpCase, ncalls int) httpRunResult {
 		parts = append(parts, "ok "+showView(v)+" "+cs+" "+d)
 	}
 	res.line = strings.Join(parts, " | ")
+	crossCheck(s, "http_target_changed_by_later_targeter", hc)
+	remember(live, hc)
 	return res
 }
 
@@ -1022,6 +1029,8 @@ func runJSON(s *kit.Summary, jc *jsonCase, ncalls int, r *kit.Rng) jsonRunResult
 		parts = append(parts, "ok "+showView(v))
 	}
 	res.line = strings.Join(parts, " | ")
+	crossCheck(s, "json_target_changed_by_later_targeter", jc)
+	remember(live, jc)
 	return res
 }
 
@@ -1170,6 +1179,19 @@ func replayC14(c *run.Ctx, s *kit.Summary) {
 		panic(err)
 	}
 	st := &kit.Stream{Name: "replay"}
+	if rec.Kind == "http_body_file_read_at_decode_time" {
+		var rc rewriteCase
+		if err := json.Unmarshal(rec.Input, &rc); err != nil {
+			panic(err)
+		}
+		if rc.Work != "" {
+			rc.Path = strings.Replace(rc.Path, rc.Work, c.Work, 1)
+			rc.Work = c.Work
+		}
+		os.MkdirAll(filepath.Dir(rc.Path), 0o755)
+		runRewrite(s, &rc)
+		return
+	}
 	if strings.HasPrefix(rec.Kind, "attack_") {
 		var gc glueCase
 		if err := json.Unmarshal(rec.Input, &gc); err != nil {
@@ -1263,6 +1285,17 @@ func runC14(c *run.Ctx, s *kit.Summary) {
 			s.Violate(kit.Violation{Kind: "corpus_missing", What: "the regression witnesses in corpus/C14 were not found", Observed: corpusDir()})
 		}
 		st.Diff(c.Driver, s)
+	}
+
+	// 0a. one body path, two payloads, one process
+	for i := 0; i < c.N(12, 200); i++ {
+		rc := rewriteCase{Work: work, Mode: []string{"two_targeters", "mid_stream"}[i%2],
+			Path: filepath.Join(work, fmt.Sprintf("rewritten_%d.bin", i%3)),
+			A:    []byte(fmt.Sprintf("payload A %d", i)), B: []byte(fmt.Sprintf("payload B %d, longer than A", i))}
+		if i%5 == 4 {
+			rc.A, rc.B = rc.B, []byte{}
+		}
+		runRewrite(s, &rc)
 	}
 
 	// 0b. the attack command's glue (format switch, -header/-body defaults, eager/lazy selection)
@@ -1409,6 +1442,37 @@ func runC14(c *run.Ctx, s *kit.Summary) {
 				// oracle: eager = the lazily produced stream (first error decides)
 				oracleReadAll(s, "http", &hc, res.codes, res.returned, tgts, err, httpErrCode)
 			}
+			// the same targets file once more in this process: the same paths now carry other
+			// payloads, the defaults have other values
+			if hc.Legal && i%6 == 1 {
+				hc2 := hc
+				hc2.Files = map[string][]byte{}
+				for p, b := range hc.Files {
+					hc2.Files[p] = append([]byte("rewritten: "), b...)
+				}
+				hc2.Targets = append([]specTarget{}, hc.Targets...)
+				for k := range hc2.Targets {
+					if hc2.Targets[k].HasBody {
+						hc2.Targets[k].Body = hc2.Files[hc2.Targets[k].BodyFile]
+					}
+				}
+				hc2.Defaults = nil
+				for _, d := range hc.Defaults {
+					vs := make([]string, len(d.Vals))
+					for j := range vs {
+						vs[j] = "second-run-" + d.Vals[j]
+					}
+					hc2.Defaults = append(hc2.Defaults, dflt{d.Key, vs, d.Cap})
+				}
+				hc2.DefaultBody = append([]byte("second run "), hc.DefaultBody...)
+				writeFiles(&hc2)
+				res2 := runHTTP(s, &hc2, n)
+				oracleHTTP(s, &hc2, res2)
+				s.Count("http:same_file_decoded_again_with_other_payloads")
+				st.Add(httpOp(&hc2, "c14.http", n), res2.line)
+				tgts, err := vegeta.ReadAllTargets(vegeta.NewHTTPTargeter(strings.NewReader(hc2.Src), hc2.DefaultBody, mkDefaults(hc2.Defaults)))
+				oracleReadAll(s, "http", &hc2, res2.codes, res2.returned, tgts, err, httpErrCode)
+			}
 			for p := range hc.Files {
 				os.Remove(p)
 			}
@@ -1481,6 +1545,24 @@ func runC14(c *run.Ctx, s *kit.Summary) {
 				ra.Add(jsonOp(&jc, "c14.json.readall", -1), line)
 				oracleReadAll(s, "json", &jc, res.codes, res.returned, tgts, err, jsonErrCode)
 			}
+			// the same lines once more in this process with other defaults
+			if jc.Legal && i%6 == 1 {
+				jc2 := jc
+				jc2.Defaults = map[string][]string{}
+				for k, vs := range jc.Defaults {
+					for _, v := range vs {
+						jc2.Defaults[k] = append(jc2.Defaults[k], "second-run-"+v)
+					}
+					if len(vs) == 0 {
+						jc2.Defaults[k] = []string{}
+					}
+				}
+				jc2.DefaultBody = append([]byte("second run "), jc.DefaultBody...)
+				res2 := runJSON(s, &jc2, n, r)
+				oracleJSON(s, &jc2, res2)
+				s.Count("json:same_file_decoded_again_with_other_defaults")
+				st.Add(jsonOp(&jc2, "c14.json", n), res2.line)
+			}
 			// encoder model and image decoder on what the real encoder wrote
 			for k := range ts {
 				if k > 3 {
@@ -1552,6 +1634,101 @@ func runC14(c *run.Ctx, s *kit.Summary) {
 			}
 		}
 		_, _ = ops2, impl2
+	}
+}
+
+// ---------------------------------------------------------------- same keys, other contents
+
+// rewriteCase: one body path whose payload is rewritten between two decodes in this process.
+type rewriteCase struct {
+	Work string `json:"work"`
+	Mode string `json:"mode"` // "two_targeters" | "mid_stream"
+	Path string `json:"path"`
+	A    []byte `json:"a"`
+	B    []byte `json:"b"`
+}
+
+// runRewrite: the targeter reads a body file when it decodes the target that names it — a
+// decode after the file was rewritten describes (and must return) the new payload, and a target
+// returned before keeps the old one.
+func runRewrite(s *kit.Summary, rc *rewriteCase) {
+	fail := func(what, exp, obs string) {
+		s.Violate(kit.Violation{Kind: "http_body_file_read_at_decode_time", What: what, Input: rc, Expected: exp, Observed: obs,
+			Key: map[string]interface{}{"mode": rc.Mode}})
+	}
+	write := func(b []byte) {
+		if err := os.WriteFile(rc.Path, b, 0o644); err != nil {
+			panic(err)
+		}
+	}
+	defer os.Remove(rc.Path)
+	s.Count("rewrite:" + rc.Mode)
+	s.Case(fmt.Sprint("rw:", rc.Mode, rc.Path, string(rc.A), string(rc.B)), true)
+	switch rc.Mode {
+	case "two_targeters":
+		src := "POST http://rw/0\n@" + rc.Path + "\n"
+		write(rc.A)
+		var t1 vegeta.Target
+		if err := vegeta.NewHTTPTargeter(strings.NewReader(src), nil, nil)(&t1); err != nil || !bytes.Equal(t1.Body, rc.A) {
+			fail("first decode", fmt.Sprintf("%q", rc.A), fmt.Sprintf("%q err %v", t1.Body, err))
+			return
+		}
+		write(rc.B)
+		var t2 vegeta.Target
+		if err := vegeta.NewHTTPTargeter(strings.NewReader(src), nil, nil)(&t2); err != nil || !bytes.Equal(t2.Body, rc.B) {
+			fail("a second targeter over the same targets file after the body file was rewritten", fmt.Sprintf("%q", rc.B), fmt.Sprintf("%q err %v", t2.Body, err))
+			return
+		}
+		write(rc.A)
+		ts, err := vegeta.ReadAllTargets(vegeta.NewHTTPTargeter(strings.NewReader(src+src), nil, nil))
+		if err != nil || len(ts) != 2 || !bytes.Equal(ts[0].Body, rc.A) || !bytes.Equal(ts[1].Body, rc.A) {
+			fail("ReadAllTargets after the body file was rewritten again", fmt.Sprintf("2 x %q", rc.A), fmt.Sprint(len(ts), " targets, err ", err))
+			return
+		}
+		if !bytes.Equal(t1.Body, rc.A) || !bytes.Equal(t2.Body, rc.B) {
+			fail("targets returned earlier changed", fmt.Sprintf("%q %q", rc.A, rc.B), fmt.Sprintf("%q %q", t1.Body, t2.Body))
+		}
+	case "mid_stream":
+		src := "POST http://rw/0\n@" + rc.Path + "\nGET http://rw/1\nPOST http://rw/2\n@" + rc.Path + "\n"
+		tr := vegeta.NewHTTPTargeter(strings.NewReader(src), []byte("dflt"), nil)
+		write(rc.A)
+		var t0, t1, t2 vegeta.Target
+		if err := tr(&t0); err != nil || !bytes.Equal(t0.Body, rc.A) {
+			fail("first target", fmt.Sprintf("%q", rc.A), fmt.Sprintf("%q err %v", t0.Body, err))
+			return
+		}
+		write(rc.B)
+		e1, e2 := tr(&t1), tr(&t2)
+		if e1 != nil || e2 != nil || string(t1.Body) != "dflt" || !bytes.Equal(t2.Body, rc.B) {
+			fail("third target names the same body file, rewritten after the first target was decoded", fmt.Sprintf("%q", rc.B), fmt.Sprintf("%q (errs %v %v)", t2.Body, e1, e2))
+			return
+		}
+		if !bytes.Equal(t0.Body, rc.A) {
+			fail("the first target changed when the third was decoded", fmt.Sprintf("%q", rc.A), fmt.Sprintf("%q", t0.Body))
+		}
+	}
+}
+
+// targets returned by the previous targeter of this process: a later targeter (pooled maps,
+// buffers, caches) must not change them either
+var prevLive []*vegeta.Target
+var prevSnap []tview
+var prevInput interface{}
+
+func crossCheck(s *kit.Summary, kind string, input interface{}) {
+	for j, lt := range prevLive {
+		if now := snapshot(lt); !eqView(now, prevSnap[j]) {
+			s.Violate(kit.Violation{Kind: kind, What: fmt.Sprintf("target %d of the previous targets file changed while this one was decoded", j),
+				Input: map[string]interface{}{"previous": prevInput, "this": input}, Expected: showViewText(prevSnap[j]), Observed: showViewText(now)})
+			break
+		}
+	}
+}
+
+func remember(live []*vegeta.Target, input interface{}) {
+	prevLive, prevSnap, prevInput = live, nil, input
+	for _, t := range live {
+		prevSnap = append(prevSnap, snapshot(t))
 	}
 }
 
